@@ -57,3 +57,4 @@ MODULES["C07"] += ["QuillModel.Props.C07Unbounded"]
 THEOREMS["C17"] += ["Backend.C17_accepted_history_grows", "Backend.C17_parking_call_committed_its_request",
                     "Backend.C17_remove_blocking_parks_on_its_record", "Backend.C17_remove_blocking_contract"]
 MODULES["C17"] += ["QuillModel.Props.C17Parked"]
+THEOREMS["C17"] += ["Backend.C17_parked_flag_has_record", "Backend.C17_parked_removal_contract"]
